@@ -871,3 +871,10 @@ package raft
 //@ nobounds
 //@ requires r.log != nil && r.log.valid() && r.log.committed < MaxUint64
 //@ loop 1 step len(ents) > 0 && idx == ents[len(ents) - 1].Index + 1
+
+// C07: the raft core's applied index is exactly the one the state machine confirmed (the "no
+// campaign while a committed config change is unapplied" rule compares it with the commit index)
+//@ func (p *Peer) NotifyRaftLastApplied [C07]
+//@ requires p.raft != nil
+//@ modifies p.raft.applied
+//@ ensures p.raft.applied == lastApplied
